@@ -54,7 +54,7 @@ def _split(base, rng, intersect=None, format_range=range2parts):
     }
     it = ('n1', 'n2', 1), ('n2', 'n1', -1), ('r1', 'r2', 1), ('r2', 'r1', -1)
     for i, j, n in it:
-        if z[i] != rng[i]:
+        if (int(z[i]) or 1) != (int(rng[i]) or 1):  # 0 is the first of a whole.
             r = rng.copy()
             r[j] = str(int(z[i]) - n) if j[0] == 'r' else z[i] - n
             r = dict(format_range(('name', 'n1', 'n2'), **r))
